@@ -299,7 +299,7 @@ def sentinel(w):
 
 def run(tier, seed):
     rep = Report("C16", tier, seed, "exploration")
-    na, nb, nq, nins = (40, 60, 20, 25) if tier == "quick" else (4000, 6000, 30, 40)
+    na, nb, nq, nins = (160, 240, 20, 25) if tier == "quick" else (4000, 6000, 30, 40)
     rep.rule = ("leg A: generated queries, static output types (planner's type analysis on the live catalog) vs runtime array "
                 "variants and chunk widths; leg B: INSERT VALUES / column subsets / INSERT..SELECT of int, float, string, boolean, "
                 "date and NULL sources into columns of 8 types (nullable or NOT NULL) on both engines, read back and compared; "
